@@ -220,14 +220,13 @@ class ASTSchemaPrinter:
                 flatten(n.directives for n in definition.nodes if n)
             )
 
-        if not directives_nodes:
-            return ""
-
-        return " " + " ".join(
+        printed = [
             print_ast(directive_node)
             for directive_node in directives_nodes
             if self.include_custom_schema_directive(directive_node.name.value)
-        )
+        ]
+
+        return (" " + " ".join(printed)) if printed else ""
 
     def print_type(self, type_: GraphQLType) -> str:
         if isinstance(type_, ScalarType):
